@@ -2,6 +2,8 @@ import IastModel.Rewriter.Rewrite
 import IastModel.Spec.Scope
 import IastModel.Lemmas.Monad
 import IastModel.Lemmas.TempsBlock
+import IastModel.Props.C02
+import IastModel.Lemmas.ErTemps
 /-
   C06 — temporaries are hygienic.  Proved here: (1) a file that mentions the reserved prefix in any
   identifier is refused, untouched, with the documented reason, before anything is injected; (2) the
@@ -102,5 +104,20 @@ theorem visit_uses_registered_temporaries (cfg : Config) (f : Nat) (root : Bool)
     tgood (visit cfg f root n s).2.idents (visit cfg f root n s).1 = true ∧
     ∀ k ∈ s.idents, k ∈ (visit cfg f root n s).2.idents :=
   visit_T cfg f root n s h
+
+/-- **C06, "assigned before it is read" (partial: programs without optional chaining).**  Erasing the
+    instrumentation resolves every read of a temporary through the environment built from the
+    assignments met before it, in evaluation order (sequence elements left to right, the hook's first
+    argument after the hoisted operands, a block's bindings not leaving the block).  For every
+    configuration, fuel and well-formed source program without optional chaining whose rewrite is reported
+    modified, no temporary is left in the erased output: every read was preceded by an assignment of the same
+    temporary in the same block.  (Corollary of `C02.erasing_the_instrumentation_gives_back_the_input_partial`.) -/
+theorem every_temporary_read_is_assigned_before_partial (cfg : Config) (fuel : Nat) (p : Node)
+    (hs : srcOk p = true) (hno : noOpt p = true) (hnb : isBlockNode p = false)
+    (hm : (transformProgram cfg fuel p).status = .modified) :
+    hasTemp (eraseProgram (prologue cfg.dsts) (transformProgram cfg fuel p).out) = false := by
+  have h := (C02.erasing_the_instrumentation_gives_back_the_input_partial cfg fuel p hs hno hnb hm).1
+  rw [hasTemp_eq, ← noTemps_strip, h, noTemps_strip, noTemps_src p hs]
+  rfl
 
 end IastModel.C06
